@@ -25,7 +25,9 @@ RULE = ("12 templates (flat, year dir, y/m/d, y/doy, year2/doy, y/m/d/h, "
         "+1 us, open/both-open/before/after periods, `in` for periods and "
         "every lattice instant, len(); option deviations (sort, only_path, "
         "bundle by count/frequency, white/black filters, exclusion by name / "
-        "one / two periods, FileSet reused with warm info cache) on the whole "
+        "one / two periods, FileSet reused with warm info cache, and queries "
+        "on a FileSet object primed by earlier unfiltered and differently "
+        "filtered queries) on the whole "
         "pool: one at a time (quick), all pairs (thorough); thorough adds a "
         "zip file system. Non-trivial = the query selects a non-empty proper "
         "subset of the population or an end point of the query coincides "
@@ -139,6 +141,32 @@ def option_menu(tname, files, lat):
         ("reuse", {}, dict(_reuse=True), {}),
     ]
     return menu
+
+
+def query_histories(tname):
+    """Option sets that are judged on ONE long-lived FileSet object which has
+    answered other queries before (`_primed`): an unfiltered find() over
+    everything and, for user-placeholder templates, a find() with another
+    filter. What an earlier query cached must not leak into a later one."""
+    out = [(("primed", {}, dict(_reuse=True, _primed=True), {}),)]
+    if L.TEMPLATES[tname].get("sat"):
+        for label, filters, opts in (
+                ("white=A", {"sat": "A"}, dict(white=["A"])),
+                ("white=B", {"sat": "B"}, dict(white=["B"])),
+                ("white=[A,B]", {"sat": ["A", "B"]}, dict(white=["A", "B"])),
+                ("black=A", {"!sat": "A"}, dict(black=["A"]))):
+            out.append((("primed", {}, dict(_reuse=True, _primed=True), {}),
+                        (label, dict(filters=filters), {}, opts)))
+    return out
+
+
+def prime(fs, tname):
+    """Earlier queries on the same object (their answers are not judged
+    here)."""
+    list(fs.find(no_files_error=False))
+    if L.TEMPLATES[tname].get("sat"):
+        for other in ("A", "B"):
+            list(fs.find(filters={"sat": other}, no_files_error=False))
 
 
 def combine(devs):
@@ -269,7 +297,10 @@ def check_population(res, root, tname, wname, files, qs, lat, option_sets,
         label, find_kw, fs_kw, opts = comb
         fs_kw = dict(fs_kw)
         reuse = fs_kw.pop("_reuse", False)
+        primed = fs_kw.pop("_primed", False)
         fs = L.make_fileset(root, tname, **fs_kw) if reuse else None
+        if primed:
+            prime(fs, tname)
         for s, e in qs:
             exp = expected(files, s, e, opts)
             nt = (0 < len(exp) < len(files)) or s in boundaries \
@@ -365,7 +396,7 @@ def run_shard(shard):
         sub = os.path.join(root, "all")
         files = L.materialise(sub, tname, pl)
         menu = option_menu(tname, files, lat)
-        sets = [(m,) for m in menu]
+        sets = [(m,) for m in menu] + query_histories(tname)
         if tier == "thorough":
             sets += list(itertools.combinations(menu, 2))
         sets = sets[shard[4]::shard[5]]
@@ -462,6 +493,9 @@ def replay(case):
                 sets = [()]
             else:
                 by = {m[0]: m for m in menu}
+                for h in query_histories(tname):
+                    for m in h:
+                        by.setdefault(m[0], m)
                 sets = [tuple(by[l] for l in labels.split("+"))]
             qs = queries(lat, "thorough")
             check_population(res, root, tname, wname, files, qs, lat, sets,
